@@ -67,7 +67,8 @@ public:
       const HeatCapacityRatio<NumericType>& heat_capacity_ratio,
       const SpecificIsobaricHeatCapacity<NumericType>& specific_isobaric_heat_capacity)
     : SpecificGasConstant<NumericType>(
-          (1.0 - 1.0 / heat_capacity_ratio.Value()) * specific_isobaric_heat_capacity.Value()) {}
+          (heat_capacity_ratio.Value() - 1.0) * specific_isobaric_heat_capacity.Value()
+          / heat_capacity_ratio.Value()) {}
 
   /// \brief Constructor. Constructs a specific gas constant from a given specific isochoric heat
   /// capacity and heat capacity ratio using the definition of the heat capacity ratio and Mayer's
